@@ -24,6 +24,7 @@ REGISTRY = {
     'X01': 'harness.x01',      # extension checks (not listed properties; not in MANIFEST)
     'X02': 'harness.x02',
     'X03': 'harness.x03',
+    'X04': 'harness.x04',
 }
 
 if __name__ == '__main__':
